@@ -73,3 +73,15 @@ Definition C04_roundtrip_ok (t tref back : Z) : bool :=
 Definition C04_order_ok (t1 t2 tref back1 back2 : Z) : bool :=
   if in_windowb t1 tref && in_windowb t2 tref && (0 <=? time_sec tref) && (t1 <=? t2)
   then back1 <=? back2 else true.
+
+(* The window of the property taken literally, at nanosecond granularity:
+   -2^31 s <= t - tref < 2^31 s.  It differs from the whole-second window the
+   code uses by the band [time_sec t - time_sec tref = 2^31 and nsec t < nsec tref]
+   at the upper edge (inside the literal window, mis-unfolded by the code) and the
+   mirror band at the lower edge (outside the literal window). *)
+Definition in_window_ns (t tref : Z) : Prop :=
+  - 2147483648 * nanos_per_sec <= t - tref < 2147483648 * nanos_per_sec.
+Definition in_window_nsb (t tref : Z) : bool :=
+  (- 2147483648 * nanos_per_sec <=? t - tref) && (t - tref <? 2147483648 * nanos_per_sec).
+Definition C04_roundtrip_ns_ok (t tref back : Z) : bool :=
+  if in_window_nsb t tref && (0 <=? time_sec tref) then (t - 1 <=? back) && (back <=? t) else true.
